@@ -1,2 +1,645 @@
-// Package c13 binds the TLA+ specification of property C13 to the Go code.
+// Package c13 binds spec/strings (Fold.tla, SplitTrim.tla) to
+// stringutil.ContainsFold and stringutil.SplitTrimmed.
+//
+// The TLA+ verdicts are replayed on the real functions (G) and recorded real
+// calls are abstracted into the specification's vocabulary for TLC to re-judge
+// (T).  The statement of C13 names Go reference functions (strings.EqualFold,
+// strings.Split, strings.TrimSpace, strings.ToLower/Contains): refContains and
+// refSplitTrimmed below are literal transcriptions of the statement built on
+// them and are the deciding oracle; a disagreement between them and the TLA+
+// verdict is a specification bug and aborts the run (exit 4 -> checker error).
 package c13
+
+import (
+	"encoding/json"
+	"fmt"
+	"slices"
+	"sort"
+	"strings"
+	"unicode"
+	"unicode/utf8"
+
+	"github.com/AdguardTeam/golibs/stringutil"
+
+	"verifharness/internal/vh"
+)
+
+func init() {
+	vh.Register("c13", "replay-fold", replayFold)
+	vh.Register("c13", "replay-split", replaySplit)
+	vh.Register("c13", "record-fold", recordFold)
+	vh.Register("c13", "record-split", recordSplit)
+}
+
+// ------------------------------------------------------------ references
+
+// refContains is the statement of C13, literally: s has a substring of the
+// same byte length as sub, starting at a rune boundary, that equals sub under
+// strings.EqualFold.
+func refContains(s, sub string) bool {
+	n := len(sub)
+	for i := 0; i+n <= len(s); i++ {
+		if i < len(s) && !utf8.RuneStart(s[i]) {
+			continue
+		}
+		if strings.EqualFold(s[i:i+n], sub) {
+			return true
+		}
+	}
+	return false
+}
+
+// refSplitTrimmed is the statement of C13, literally.
+func refSplitTrimmed(s, sep string) []string {
+	out := []string{}
+	for _, p := range strings.Split(strings.TrimSpace(s), sep) {
+		if p = strings.TrimSpace(p); p != "" {
+			out = append(out, p)
+		}
+	}
+	return out
+}
+
+func isASCII(s string) bool {
+	for i := 0; i < len(s); i++ {
+		if s[i] >= utf8.RuneSelf {
+			return false
+		}
+	}
+	return true
+}
+
+// orbitOf returns the simple-folding orbit of r in code-point order.
+func orbitOf(r rune) []rune {
+	o := []rune{r}
+	for f := unicode.SimpleFold(r); f != r; f = unicode.SimpleFold(f) {
+		o = append(o, f)
+	}
+	slices.Sort(o)
+	return o
+}
+
+// --------------------------------------------------------- fold: replay
+
+// modelOrbits concretises the orbits of Fold.tla's ModelTable.  The first
+// entry of every list is the rune set the table was written for; the others
+// are orbits with the same byte-length profile, used for the second
+// concretisation.  Members are in code-point order.
+var modelOrbits = map[string][][]rune{
+	"K":   {{'K', 'k', '\u212A'}},
+	"S":   {{'S', 's', '\u017F'}},
+	"SIG": {{'\u03A3', '\u03C2', '\u03C3'}, {'\u00B5', '\u039C', '\u03BC'}, {'\u01C4', '\u01C5', '\u01C6'}},
+	"A":   {{'A', 'a'}, {'B', 'b'}, {'Z', 'z'}, {'I', 'i'}},
+	"E":   {{'\u00C9', '\u00E9'}, {'\u00DC', '\u00FC'}, {'\u042F', '\u044F'}, {'\u0394', '\u03B4'}},
+	"ONE": {{'1'}, {'7'}, {'_'}, {'-'}, {' '}},
+}
+
+// modelBytes is Fold.tla's ModelTable, repeated here only to cross-check the
+// concretisation table against package unicode at start-up.
+var modelBytes = map[string][]int{
+	"K": {1, 1, 3}, "S": {1, 1, 2}, "SIG": {2, 2, 2}, "A": {1, 1}, "E": {2, 2}, "ONE": {1},
+}
+
+func checkModelOrbits() error {
+	for name, alts := range modelOrbits {
+		for _, o := range alts {
+			if !slices.Equal(orbitOf(o[0]), o) {
+				return fmt.Errorf("concretisation table: orbit %s %q is not the SimpleFold orbit %q", name, string(o), string(orbitOf(o[0])))
+			}
+			for m, r := range o {
+				if utf8.RuneLen(r) != modelBytes[name][m] {
+					return fmt.Errorf("concretisation table: %s member %d %q has %d bytes, model says %d", name, m+1, r, utf8.RuneLen(r), modelBytes[name][m])
+				}
+			}
+		}
+	}
+	return nil
+}
+
+type mrune struct {
+	Orbit  string
+	Member int
+}
+
+func (m *mrune) UnmarshalJSON(b []byte) error {
+	var a []any
+	if err := json.Unmarshal(b, &a); err != nil {
+		return err
+	}
+	if len(a) != 2 {
+		return fmt.Errorf("rune %s: want [orbit, member]", b)
+	}
+	o, ok1 := a[0].(string)
+	f, ok2 := a[1].(float64)
+	if !ok1 || !ok2 {
+		return fmt.Errorf("rune %s: want [string, number]", b)
+	}
+	m.Orbit, m.Member = o, int(f)
+	return nil
+}
+
+type foldVec struct {
+	S   []mrune `json:"s"`
+	Sub []mrune `json:"sub"`
+	R   bool    `json:"r"`
+}
+
+// concretise builds the string for q; alt[orbit] selects the rune set.
+func concretise(q []mrune, alt map[string]int) (string, error) {
+	var b strings.Builder
+	for _, r := range q {
+		sets, ok := modelOrbits[r.Orbit]
+		if !ok {
+			return "", fmt.Errorf("unknown orbit %q", r.Orbit)
+		}
+		set := sets[alt[r.Orbit]%len(sets)]
+		if r.Member < 1 || r.Member > len(set) {
+			return "", fmt.Errorf("orbit %q has no member %d", r.Orbit, r.Member)
+		}
+		b.WriteRune(set[r.Member-1])
+	}
+	return b.String(), nil
+}
+
+// judgeFold runs ContainsFold on one concrete pair and compares it with the
+// references.  specVerdict is nil when no TLA+ verdict accompanies the pair.
+func judgeFold(res *vh.Result, s, sub string, specVerdict *bool) (specBug error) {
+	want := refContains(s, sub)
+	if specVerdict != nil && *specVerdict != want {
+		return fmt.Errorf("Fold.tla says RefContains=%v, the statement's reference says %v for s=%+q sub=%+q", *specVerdict, want, s, sub)
+	}
+	ascii := isASCII(s) && isASCII(sub)
+	if ascii {
+		if plain := strings.Contains(strings.ToLower(s), strings.ToLower(sub)); plain != want {
+			return fmt.Errorf("reference inconsistency on ASCII operands s=%+q sub=%+q: EqualFold windows %v, Contains(ToLower) %v", s, sub, want, plain)
+		}
+	}
+	var got bool
+	pv, panicked := vh.Try(func() { got = stringutil.ContainsFold(s, sub) })
+	key := fmt.Sprintf("ContainsFold(%+q, %+q)", s, sub)
+	switch {
+	case panicked:
+		res.Mismatch(key, fmt.Sprintf("panic: %v", pv), map[string]any{"s": s, "sub": sub})
+	case got != want:
+		what := fmt.Sprintf("returned %v, the reference definition (EqualFold on a same-byte-length window at a rune boundary) gives %v", got, want)
+		if ascii {
+			what += "; ASCII operands: strings.Contains(ToLower(s), ToLower(sub)) is " + fmt.Sprint(want)
+		}
+		res.Mismatch(key, what, map[string]any{"s": s, "sub": sub, "got": got, "want": want})
+	}
+	return nil
+}
+
+func replayFold(args []string) error {
+	if len(args) != 2 {
+		return fmt.Errorf("usage: replay-fold <vectors> <result>")
+	}
+	if err := checkModelOrbits(); err != nil {
+		return err
+	}
+	res, err := vh.NewResult(args[1])
+	if err != nil {
+		return err
+	}
+	rng := vh.Rand(131)
+	n, evals, asciiN, trueN := 0, 0, 0, 0
+	dd := vh.NewDedup()
+	err = vh.ForEachVector(args[0], func(_ int, raw []byte) error {
+		var v foldVec
+		if err := json.Unmarshal(raw, &v); err != nil {
+			return err
+		}
+		n++
+		if len(v.S) > 0 && len(v.Sub) > 0 {
+			dd.Add(raw)
+		}
+		if v.R {
+			trueN++
+		}
+		// Concretisation 0: the runes the table was written for;
+		// concretisation 1: seeded choice among orbits of the same shape.
+		alts := []map[string]int{{}, {"SIG": rng.IntN(3), "A": rng.IntN(4), "E": rng.IntN(4), "ONE": rng.IntN(5)}}
+		seen := ""
+		for ci, alt := range alts {
+			s, err := concretise(v.S, alt)
+			if err != nil {
+				return err
+			}
+			sub, err := concretise(v.Sub, alt)
+			if err != nil {
+				return err
+			}
+			if ci > 0 && s+"\x00"+sub == seen {
+				continue
+			}
+			seen = s + "\x00" + sub
+			evals++
+			if isASCII(s) && isASCII(sub) {
+				asciiN++
+			}
+			if n%49999 == 7 && ci == 0 {
+				res.Sample(map[string]any{"s": s, "sub": sub, "spec": v.R})
+			}
+			r := v.R
+			if err := judgeFold(res, s, sub, &r); err != nil {
+				return err
+			}
+		}
+		return nil
+	})
+	if err != nil {
+		return err
+	}
+	return res.Close(map[string]any{"vectors": n, "evaluations": evals, "ascii_pairs": asciiN,
+		"spec_true": trueN, "distinct_nontrivial": dd.N()})
+}
+
+// -------------------------------------------------------- split: replay
+
+type splitVec struct {
+	S   []string   `json:"s"`
+	Sep []string   `json:"sep"`
+	Out [][]string `json:"out"`
+}
+
+var (
+	wsReps    = []string{"\t", "\n", "\u00a0", "\u0085", "\r", "\u2003", "\u3000", "\v", "\f", "\u2028", "\u1680"}
+	otherReps = []string{"c", "\u00e9", "Z", "1", "\u0436", "\u4e16", "-", "_", ".", "\U0001F600", ";"}
+)
+
+func concTokens(q []string, ws, other string) (string, error) {
+	var b strings.Builder
+	for _, t := range q {
+		switch t {
+		case "SP":
+			b.WriteByte(' ')
+		case "W":
+			b.WriteString(ws)
+		case "x":
+			b.WriteString(other)
+		case "a", "b", ",":
+			b.WriteString(t)
+		default:
+			return "", fmt.Errorf("unknown token %q", t)
+		}
+	}
+	return b.String(), nil
+}
+
+// judgeSplit runs SplitTrimmed on one concrete input.  spec is nil when no
+// TLA+ prediction accompanies it.
+func judgeSplit(res *vh.Result, s, sep string, spec []string) (specBug error) {
+	want := refSplitTrimmed(s, sep)
+	if spec != nil && !slices.Equal(spec, want) {
+		return fmt.Errorf("SplitTrim.tla predicts %+q, the statement's reference gives %+q for s=%+q sep=%+q", spec, want, s, sep)
+	}
+	var got []string
+	pv, panicked := vh.Try(func() { got = stringutil.SplitTrimmed(s, sep) })
+	key := fmt.Sprintf("SplitTrimmed(%+q, %+q)", s, sep)
+	switch {
+	case panicked:
+		res.Mismatch(key, fmt.Sprintf("panic: %v", pv), map[string]any{"s": s, "sep": sep})
+	case got == nil:
+		res.Mismatch(key, fmt.Sprintf("returned a nil slice, want non-nil %+q", want), map[string]any{"s": s, "sep": sep, "want": want})
+	case !slices.Equal(got, want):
+		res.Mismatch(key, fmt.Sprintf("returned %+q, the non-empty trimmed pieces of strings.Split(TrimSpace(s), sep) are %+q", got, want),
+			map[string]any{"s": s, "sep": sep, "got": got, "want": want})
+	}
+	return nil
+}
+
+func replaySplit(args []string) error {
+	if len(args) != 2 {
+		return fmt.Errorf("usage: replay-split <vectors> <result>")
+	}
+	res, err := vh.NewResult(args[1])
+	if err != nil {
+		return err
+	}
+	seed := int(vh.Seed() % 1000003)
+	n, evals := 0, 0
+	dd := vh.NewDedup()
+	err = vh.ForEachVector(args[0], func(_ int, raw []byte) error {
+		var v splitVec
+		if err := json.Unmarshal(raw, &v); err != nil {
+			return err
+		}
+		n++
+		if len(v.S) > 0 {
+			dd.Add(raw)
+		}
+		seen := map[string]bool{}
+		for c := 0; c < 3; c++ {
+			ws := wsReps[(seed+n*3+c*5)%len(wsReps)]
+			other := otherReps[(seed+n*7+c*3)%len(otherReps)]
+			s, err := concTokens(v.S, ws, other)
+			if err != nil {
+				return err
+			}
+			sep, err := concTokens(v.Sep, ws, other)
+			if err != nil {
+				return err
+			}
+			if seen[s] {
+				continue
+			}
+			seen[s] = true
+			spec := make([]string, 0, len(v.Out))
+			for _, p := range v.Out {
+				ps, err := concTokens(p, ws, other)
+				if err != nil {
+					return err
+				}
+				spec = append(spec, ps)
+			}
+			evals++
+			if n%39989 == 11 && c == 0 {
+				res.Sample(map[string]any{"s": s, "sep": sep, "spec": spec})
+			}
+			if err := judgeSplit(res, s, sep, spec); err != nil {
+				return err
+			}
+		}
+		return nil
+	})
+	if err != nil {
+		return err
+	}
+	return res.Close(map[string]any{"vectors": n, "evaluations": evals, "distinct_nontrivial": dd.N()})
+}
+
+// --------------------------------------------------------- fold: record
+
+// foldPool is rich in orbits with more than two members and in orbits whose
+// members differ in UTF-8 length.
+var foldPool = []rune{
+	'k', 'K', '\u212A', 's', 'S', '\u017F', '\u03C3', '\u03C2', '\u03A3',
+	'a', 'A', '\u00E9', '\u00C9', '1', ' ', '-',
+	'i', 'I', '\u0130', '\u0131', // dotted/dotless i: singletons under simple folding
+	'\u00DF', '\u1E9E', // sharp s, 2 and 3 bytes
+	'\u00B5', '\u039C', '\u03BC', // micro sign / mu
+	'\u03B8', '\u03D1', '\u03F4', '\u0398', // theta: four members
+	'\u0432', '\u0412', '\u1C80', // Cyrillic ve: 2, 2, 3 bytes
+	'\u0434', '\u0414', '\u1C81', // Cyrillic de
+	'\u13A0', '\uAB70', '\u13F0', '\u13F8', // Cherokee
+	'\u01C4', '\u01C5', '\u01C6', '\u01C7', '\u01C8', '\u01C9', // title-case digraphs
+	'\u00E5', '\u00C5', '\u212B', // a-ring / Angstrom sign
+	'\u03C9', '\u03A9', '\u2126', // omega / Ohm sign
+	'\u1E61', '\u1E60', '\u1E9B', // s with dot above / long s with dot above
+	'\u03B9', '\u0399', '\u0345', '\u1FBE', // iota: four members, 2 and 3 bytes
+	'\U00010400', '\U00010428', // Deseret: 4 bytes
+	'\u4E16', '\u0416', '\u0436', 'z', 'Z',
+}
+
+type orbitInfo struct {
+	id      string
+	members []rune
+}
+
+func abstractRune(r rune, cache map[rune][2]any, table map[string][]int) [2]any {
+	if a, ok := cache[r]; ok {
+		return a
+	}
+	o := orbitOf(r)
+	id := fmt.Sprintf("U%04X", o[0])
+	if _, ok := table[id]; !ok {
+		bl := make([]int, len(o))
+		for i, m := range o {
+			bl[i] = utf8.RuneLen(m)
+		}
+		table[id] = bl
+	}
+	a := [2]any{id, slices.Index(o, r) + 1}
+	cache[r] = a
+	return a
+}
+
+func recordFold(args []string) error {
+	if len(args) != 4 {
+		return fmt.Errorf("usage: record-fold <trace-out> <result> <traced-pairs> <swept-pairs>")
+	}
+	var nTrace, nSweep int
+	fmt.Sscan(args[2], &nTrace)
+	fmt.Sscan(args[3], &nSweep)
+	tr, err := vh.NewTrace(args[0])
+	if err != nil {
+		return err
+	}
+	res, err := vh.NewResult(args[1])
+	if err != nil {
+		return err
+	}
+	rng := vh.Rand(132)
+	cache := map[rune][2]any{}
+	table := map[string][]int{}
+	for _, r := range foldPool {
+		abstractRune(r, cache, table)
+		for _, m := range orbitOf(r) {
+			abstractRune(m, cache, table)
+		}
+	}
+	tr.Emit(map[string]any{"table": table})
+
+	randRunes := func(n int, pool []rune) []rune {
+		out := make([]rune, n)
+		for i := range out {
+			out[i] = pool[rng.IntN(len(pool))]
+		}
+		return out
+	}
+	refold := func(q []rune) []rune {
+		out := make([]rune, len(q))
+		for i, r := range q {
+			o := orbitOf(r)
+			out[i] = o[rng.IntN(len(o))]
+		}
+		return out
+	}
+	abstract := func(q []rune) [][2]any {
+		out := make([][2]any, len(q))
+		for i, r := range q {
+			out[i] = abstractRune(r, cache, table)
+		}
+		return out
+	}
+	type ev struct {
+		S   [][2]any `json:"s"`
+		Sub [][2]any `json:"sub"`
+		R   bool     `json:"r"`
+	}
+	total := max(nTrace, nSweep)
+	trueN := 0
+	dd := vh.NewDedup()
+	for i := 0; i < total; i++ {
+		// A small sub-pool per pair makes accidental matches frequent.
+		pool := foldPool
+		if rng.IntN(3) > 0 {
+			base := foldPool[rng.IntN(len(foldPool))]
+			pool = append(orbitOf(base), foldPool[rng.IntN(len(foldPool))], foldPool[rng.IntN(len(foldPool))])
+		}
+		long := i >= nTrace
+		maxSub, maxS := 4, 9
+		if long {
+			maxSub, maxS = 8, 40
+		}
+		sub := randRunes(rng.IntN(maxSub+1), pool)
+		var s []rune
+		switch rng.IntN(4) {
+		case 0: // unrelated
+			s = randRunes(rng.IntN(maxS+1), pool)
+		case 1: // a re-folded copy of sub embedded
+			s = append(randRunes(rng.IntN(maxS/2+1), pool), refold(sub)...)
+			s = append(s, randRunes(rng.IntN(maxS/2+1), pool)...)
+		case 2: // a near miss: re-folded copy with one rune dropped or replaced, then maybe a real one
+			c := refold(sub)
+			if len(c) > 0 {
+				k := rng.IntN(len(c))
+				if rng.IntN(2) == 0 {
+					c = slices.Delete(c, k, k+1)
+				} else {
+					c[k] = pool[rng.IntN(len(pool))]
+				}
+			}
+			s = append(randRunes(rng.IntN(maxS/2+1), pool), c...)
+			if rng.IntN(3) == 0 {
+				s = append(s, refold(sub)...)
+			}
+			s = append(s, randRunes(rng.IntN(3), pool)...)
+		default: // partial prefixes of sub repeated before the real match (restart behaviour)
+			for k := rng.IntN(3); k >= 0 && len(sub) > 0; k-- {
+				s = append(s, refold(sub[:rng.IntN(len(sub))+1])...)
+			}
+			s = append(s, randRunes(rng.IntN(3), pool)...)
+		}
+		ss, subs := string(s), string(sub)
+		if !utf8.ValidString(ss) || !utf8.ValidString(subs) || strings.ContainsRune(ss, utf8.RuneError) || strings.ContainsRune(subs, utf8.RuneError) {
+			return fmt.Errorf("record-fold generated an operand outside the statement's precondition: %+q %+q", ss, subs)
+		}
+		if err := judgeFold(res, ss, subs, nil); err != nil {
+			return err
+		}
+		dd.Add([]byte(ss + "\x00" + subs))
+		if i < nTrace {
+			var got bool
+			if _, panicked := vh.Try(func() { got = stringutil.ContainsFold(ss, subs) }); panicked {
+				continue // already reported by judgeFold
+			}
+			if got {
+				trueN++
+			}
+			tr.Emit(ev{S: abstract(s), Sub: abstract(sub), R: got})
+			if i%9973 == 5 {
+				res.Sample(map[string]any{"s": ss, "sub": subs, "ContainsFold": got})
+			}
+		}
+	}
+	if err := tr.Close(); err != nil {
+		return err
+	}
+	return res.Close(map[string]any{"events": tr.N, "pairs": total, "traced_true": trueN, "distinct_nontrivial": dd.N()})
+}
+
+// -------------------------------------------------------- split: record
+
+func recordSplit(args []string) error {
+	if len(args) != 4 {
+		return fmt.Errorf("usage: record-split <trace-out> <result> <traced-calls> <swept-calls>")
+	}
+	var nTrace, nSweep int
+	fmt.Sscan(args[2], &nTrace)
+	fmt.Sscan(args[3], &nSweep)
+	tr, err := vh.NewTrace(args[0])
+	if err != nil {
+		return err
+	}
+	res, err := vh.NewResult(args[1])
+	if err != nil {
+		return err
+	}
+	rng := vh.Rand(133)
+	spaces := []rune{' ', ' ', ' ', '\t', '\n', '\r', '\v', '\f', '\u0085', '\u00A0', '\u1680', '\u2000', '\u2003',
+		'\u2009', '\u200A', '\u2028', '\u2029', '\u202F', '\u205F', '\u3000'}
+	// Not white space for unicode.IsSpace although some look like it.
+	others := []rune{'a', 'b', 'c', 'A', ',', ',', ';', ':', '|', '-', '=', '0', '\u00E9', '\u0436', '\u4E16', '\U0001F600',
+		'\u200B', '\u180E', '\uFEFF', '\u2060', '\u001C', '\u001F', '\u0000', '\u007F'}
+	seps := []string{",", ", ", " ", "ab", "", ";", "::", "\n", "\t", " - ", "\u00e9", "\u00a0", ",,", "a", "|", "\u2003", " ,", "\u4e16\u4e16", "\r\n"}
+
+	tokenOf := func(r rune) string {
+		switch {
+		case r == ' ':
+			return "SP"
+		case r > 0x20 && r < 0x7f && r != '"' && r != '\\':
+			// TLC reads the trace in the platform charset: tokens stay ASCII.
+			return string(r)
+		default:
+			return fmt.Sprintf("U+%04X", r)
+		}
+	}
+	abstract := func(s string) []string {
+		out := []string{}
+		for _, r := range s {
+			out = append(out, tokenOf(r))
+		}
+		return out
+	}
+	var spaceToks []string
+	for _, r := range spaces {
+		if t := tokenOf(r); !slices.Contains(spaceToks, t) {
+			spaceToks = append(spaceToks, t)
+		}
+	}
+	sort.Strings(spaceToks)
+	tr.Emit(map[string]any{"spaces": spaceToks})
+
+	type ev struct {
+		S   []string   `json:"s"`
+		Sep []string   `json:"sep"`
+		Nil bool       `json:"nil"`
+		Out [][]string `json:"out"`
+	}
+	total := max(nTrace, nSweep)
+	dd := vh.NewDedup()
+	for i := 0; i < total; i++ {
+		sep := seps[rng.IntN(len(seps))]
+		maxLen := 10
+		if i >= nTrace {
+			maxLen = 60
+		}
+		var b strings.Builder
+		pSpace := rng.Float64() * 0.7
+		pSep := rng.Float64() * 0.5
+		for k := rng.IntN(maxLen + 1); k > 0; k-- {
+			switch x := rng.Float64(); {
+			case x < pSep:
+				b.WriteString(sep)
+			case x < pSep+(1-pSep)*pSpace:
+				b.WriteRune(spaces[rng.IntN(len(spaces))])
+			default:
+				b.WriteRune(others[rng.IntN(len(others))])
+			}
+		}
+		s := b.String()
+		if err := judgeSplit(res, s, sep, nil); err != nil {
+			return err
+		}
+		dd.Add([]byte(s + "\x00" + sep))
+		if i < nTrace {
+			var got []string
+			if _, panicked := vh.Try(func() { got = stringutil.SplitTrimmed(s, sep) }); panicked {
+				continue
+			}
+			e := ev{S: abstract(s), Sep: abstract(sep), Nil: got == nil, Out: [][]string{}}
+			for _, p := range got {
+				e.Out = append(e.Out, abstract(p))
+			}
+			tr.Emit(e)
+			if i%9973 == 5 {
+				res.Sample(map[string]any{"s": s, "sep": sep, "SplitTrimmed": got})
+			}
+		}
+	}
+	if err := tr.Close(); err != nil {
+		return err
+	}
+	return res.Close(map[string]any{"events": tr.N, "calls": total, "distinct_nontrivial": dd.N()})
+}
